@@ -300,7 +300,10 @@ func c16Run(cs c16Case) (obs Term) {
 			if arrived {
 				select {
 				case <-g.returned:
-					time.Sleep(20 * time.Microsecond)
+					// let goroutine ev finish grabProfile and write its slot (best effort: completion
+					// cannot be observed without touching the implementation)
+					for t0 := time.Now(); time.Since(t0) < 15*time.Microsecond; {
+					}
 				case <-finished:
 				case <-time.After(200 * time.Millisecond):
 				}
@@ -396,7 +399,47 @@ func c16Input(cs c16Case) Term {
 	return L(L(a...), L(b...), L(o...))
 }
 
+type c16Item struct {
+	gen  string
+	cs   c16Case
+	tags []string
+}
+
+var c16Queue []c16Item
+
 func (c *Ctx) c16Emit(gen string, cs c16Case, tags ...string) {
+	c16Queue = append(c16Queue, c16Item{gen, cs, tags})
+}
+
+// c16Flush runs the queued cases, the large ones spread evenly among the small ones so that the
+// Coq shards evaluating them are balanced.
+func (c *Ctx) c16Flush() {
+	var small, big []c16Item
+	for _, it := range c16Queue {
+		if len(it.cs.srcs)+len(it.cs.bases) > 40 {
+			big = append(big, it)
+		} else {
+			small = append(small, it)
+		}
+	}
+	c16Queue = nil
+	every := len(small)
+	if len(big) > 0 {
+		every = len(small)/len(big) + 1
+	}
+	for i, it := range small {
+		c.c16Do(it.gen, it.cs, it.tags...)
+		if (i+1)%every == 0 && len(big) > 0 {
+			c.c16Do(big[0].gen, big[0].cs, big[0].tags...)
+			big = big[1:]
+		}
+	}
+	for _, it := range big {
+		c.c16Do(it.gen, it.cs, it.tags...)
+	}
+}
+
+func (c *Ctx) c16Do(gen string, cs c16Case, tags ...string) {
 	obs := c16Run(cs)
 	nfail, nok := 0, 0
 	for _, l := range [][]c16Src{cs.srcs, cs.bases} {
@@ -701,5 +744,6 @@ func runC16(c *Ctx) {
 			c.c16Emit("incompatible", cs, "gen-incompatible")
 		}
 	}
+	c.c16Flush()
 	c.Extra["controller_stalls"] = c16Stalls
 }
